@@ -94,6 +94,14 @@ pub fn property() -> Property {
             600_000,
             |_| conn::conn_case(3, false, prop::bool::weighted(0.85).boxed()),
             test,
+        ),
+        prop_sub(
+            "two_tasks",
+            "the C10 harness (request reader on one task, 1..3 StreamWriters on others, generated poll order, pending/short writes) with management records in the reader's input: whenever the reader parks waiting for the client, the owed replies must already be on the log even if a writer task held the output lock mid-record, and a reader blocked on the lock must be woken when it is released; non-trivial as in C10; distinct = hash of the case",
+            20_000,
+            500_000,
+            |_| crate::props::c10::case_strategy(),
+            crate::props::c10::test,
         )],
     }
 }
